@@ -220,6 +220,7 @@ func (h *handler) Item(x *certs.ItemCtx) {
 func (h *handler) exercise(r *itemRun, c *x509.Certificate) {
 	x := r.x
 	a := x.A
+	light := x.U.Light
 	extra := h.unitExtra(x)
 	parents := h.parents
 	if len(extra) > 0 {
@@ -257,7 +258,7 @@ func (h *handler) exercise(r *itemRun, c *x509.Certificate) {
 	j := jsonTwice("fresh")
 
 	// --- decode the JSON back where decoders exist (no panic; the values are C33's subject)
-	if j != nil {
+	if j != nil && !light {
 		var top map[string]json.RawMessage
 		if json.Unmarshal(j, &top) == nil {
 			dec := func(key string, into any) {
@@ -311,14 +312,21 @@ func (h *handler) exercise(r *itemRun, c *x509.Certificate) {
 	for _, p := range parents {
 		p := p
 		r.try(opCheckSigFrom, p.name, func() { tally(c.CheckSignatureFrom(p.c)) })
-		r.try(opParentCheckSigFrom, p.name, func() { tally(p.c.CheckSignatureFrom(c)) })
-		r.try(opCheckSig, "as parent of "+p.name, func() { tally(c.CheckSignature(p.c.SignatureAlgorithm, p.c.RawTBSCertificate, p.c.Signature)) })
 		r.try(opCheckSigFromKey, p.name, func() {
 			tally(x509.CheckSignatureFromKey(p.c.PublicKey, c.SignatureAlgorithm, c.RawTBSCertificate, c.Signature))
 		})
+		if light {
+			continue
+		}
+		r.try(opParentCheckSigFrom, p.name, func() { tally(p.c.CheckSignatureFrom(c)) })
+		r.try(opCheckSig, "as parent of "+p.name, func() { tally(c.CheckSignature(p.c.SignatureAlgorithm, p.c.RawTBSCertificate, p.c.Signature)) })
 	}
 	r.try(opCheckSigFrom, "self", func() { tally(c.CheckSignatureFrom(c)) })
-	for _, alg := range h.sigAlgs {
+	algs := h.sigAlgs
+	if light {
+		algs = []x509.SignatureAlgorithm{c.SignatureAlgorithm}
+	}
+	for _, alg := range algs {
 		alg := alg
 		r.try(opCheckSig, fmt.Sprintf("own key, algorithm %d, own signature", int(alg)), func() { tally(c.CheckSignature(alg, c.RawTBSCertificate, c.Signature)) })
 		r.try(opCheckSig, fmt.Sprintf("own key, algorithm %d, empty signature", int(alg)), func() { tally(c.CheckSignature(alg, c.RawTBSCertificate, nil)) })
@@ -441,6 +449,8 @@ func (h *handler) exercise(r *itemRun, c *x509.Certificate) {
 	if inter != nil {
 		verify("roots=parents intermediates={c,parents}", x509.VerifyOptions{Roots: roots, Intermediates: inter, CurrentTime: fx.T0, DNSName: "a.example"})
 		verify("roots={c,parents} any usage", x509.VerifyOptions{Roots: inter, Intermediates: roots, CurrentTime: fx.T0, KeyUsages: []x509.ExtKeyUsage{x509.ExtKeyUsageAny}})
+	}
+	if inter != nil && !light {
 		empty := x509.NewCertPool()
 		verify("roots={} intermediates={c,parents}", x509.VerifyOptions{Roots: empty, Intermediates: inter, CurrentTime: fx.T0})
 		var e error
@@ -490,6 +500,11 @@ func (h *handler) exercise(r *itemRun, c *x509.Certificate) {
 			walk(g1, "graph={c as root}", c)
 		}
 	}
+	if light {
+		jsonTwice("after verification")
+		h.resetParents(extra)
+		return
+	}
 	// (2) parents first (as roots), then c
 	g2 := verifier.NewGraph()
 	okg := r.try(opGraphAddRoot, "parents", func() {
@@ -532,6 +547,13 @@ func (h *handler) exercise(r *itemRun, c *x509.Certificate) {
 	// the JSON view; the two consecutive serialisations must still agree with each other
 	jsonTwice("after verification")
 
+	h.resetParents(extra)
+}
+
+// resetParents undoes the only mutation the library performs on the shared
+// parent certificates (CertPool.findVerifiedParents / WalkChains set
+// ValidSignature), so that no item depends on the items before it.
+func (h *handler) resetParents(extra []parentCert) {
 	for _, p := range h.parents {
 		p.c.ValidSignature = false
 	}
